@@ -76,6 +76,22 @@ class CollectionAttrMutator(metaclass=ABCMeta):
             collection = protect_via_deepcopy(collection)
         self.collection = collection
 
+    def _check_item(self, item: Any) -> bool:
+        """
+        Whether `item` may be stored in this collection: it must conform to the
+        item type and, for keyed containers (e.g. `KeyedList[Item, Key]`), its
+        key must conform to the declared key type.
+        """
+        if not check_type(item, self.attr_spec.item_type):
+            return False
+        origin = getattr(self.attr_spec.type, "__origin__", None)
+        args = getattr(self.attr_spec.type, "__args__", ())
+        if hasattr(origin, "__spec_class_check_type__") and len(args) == 2:
+            key_of = getattr(self.collection, "key", None)
+            if callable(key_of):
+                return check_type(key_of(item), args[1])
+        return True
+
     def prepare_item(self, new_item: Any) -> Any:
         """
         This method when an item in this collection is mutated in the
